@@ -136,6 +136,19 @@ impl Prop for C08 {
       let src = format!("{}{}{}{}{}", pre, wl, a, wr, post);
       out.push(Case { id: format!("forms;family=prose;atom={};wrap={};frame={}", an, wn, fname), cell: format!("forms;family=prose;atom={};wrap={};frame={}", an, wn, fname), input: json!({"src": src, "syntax_only": true}) });
     } } }
+    // patterns (array patterns with one or several items around the spread, tuple / tagged patterns) in match and function arms
+    let pats = ["[h …]", "[… l]", "[h … l]", "[a, b | rest]", "[… a, b]", "[p, q … a, b]", "[* … m z]", "[* … l]", "[a … b c]", "[a b … c d]", "[… a b c]", "[a, * … b]", "[x | tail]", "[x, y | tail]", "[]", "[x]", "(a, b)", "(a, (b, c))", "(1, y)", ":red", ":rect(w)", ":rect(w, h)", "*", "n", "1", "\"s\"", "(a, *)", "[* …]", "[… *]"];
+    for (i, pt) in pats.iter().enumerate() {
+      for (j, src) in [format!("r := x?\n  | {} => 1\n  | * => 2.", pt), format!("f(x<u64>) => <u64>\n  | {} => 1\n  | * => 2.", pt), format!("r := x?\n  | {}, y > 1 => 1\n  | * => 2.", pt)].iter().enumerate() {
+        out.push(Case { id: format!("forms;family=pattern;n={}.{}", i, j), cell: "forms;family=pattern".into(), input: json!({"src": src, "syntax_only": true}) });
+      }
+    }
+    // literal spellings: scientific literals with every sign and exponent form, based literals, rationals, complex, suffixes
+    for (i, l) in ["1e3", "1e+3", "1e-3", "1.5e3", "1.5e+3", "1.5e-3", "1.5e3.0", "1.5e+3.0", "1.5e-3.0", "2.5E2", "2.5E-2", ".5", ".5e1", "0x1F", "0b101", "0o17", "0d19", "1/2", "-3/4", "1+2i", "3.5-1.5i", "4i", "7u8", "7<u8>", "1_000.5", "1.0", "100", "\"s\"", "true", ":a", "_"].iter().enumerate() {
+      for (j, src) in [format!("x := {}", l), format!("x := [{} {}]", l, l), format!("x := {} + {}", l, l), format!("f({})", l)].iter().enumerate() {
+        out.push(Case { id: format!("forms;family=literal;n={}.{}", i, j), cell: format!("forms;family=literal;lit={}", i), input: json!({"src": src, "syntax_only": true}) });
+      }
+    }
     for (i, src) in ["x := -a", "x := !a", "x := ¬a", "x := a'", "x := -a'", "x := -(a + b)", "x := !(a && b)", "x := (a + b)'", "x := -a ^ 2", "x := (-a) ^ 2", "x := -(a ^ 2)", "x := a ^ -b", "x := - a", "x := a'[1]", "x := -a[1]", "x := -f(a)", "x := !a.b", "x := a.b'"].iter().enumerate() {
       out.push(Case { id: format!("forms;family=unary;n={}", i), cell: "forms;family=unary".into(), input: json!({"src": src, "syntax_only": true}) });
     }
